@@ -381,12 +381,6 @@ def _finalize_body_invweight0(
     + body_A_diag_in[body_A_diag_id, bodyid, 5]
   )
 
-  # Prevent degenerate constraints: if one component is near zero, use the other as fallback
-  if inv_trans < mujoco.mjMINVAL and inv_rot > mujoco.mjMINVAL:
-    inv_trans = inv_rot  # use rotation as fallback for translation
-  elif inv_rot < mujoco.mjMINVAL and inv_trans > mujoco.mjMINVAL:
-    inv_rot = inv_trans  # use translation as fallback for rotation
-
   body_invweight0_out[body_invweight0_id, bodyid] = wp.vec2(inv_trans, inv_rot)
 
 
